@@ -653,8 +653,21 @@ def r5_reflexive(ctx, sym):
     ctx.floor('R5', 'is_subtype overrides', n, 8)
 
 
+THOROUGH_REPS = {
+    int: [0, 1, -2, 7, 3, -1, 12],
+    float: [0.5, -8.0, 2.0, 1.5, -0.0, 3.0],
+    str: ['', 'ab', '%d', ' '],
+    list: [[], [1], ['a'], [[1]], [None]],
+    tuple: [(), (1,), ('a', 2), ((1,),)],
+    bool: [True, False],
+    set: [set(), {1}, {2, 3}, {'a'}],
+}
+
+
 def run(ctx):
     sym = Symbols(ctx.repo)
+    if ctx.tier == 'thorough':
+        REPS.update(THOROUGH_REPS)
     table = r1_binop_table(ctx, sym)
     r2_dispatch(ctx, sym, table)
     r3_comparisons(ctx, sym)
